@@ -57,8 +57,6 @@ def classify_known(rec, gmodel, known_ids):
                 if common.run_model(gmodel, "x", ["(check %s %s %s)" % (rec["dbsx"], vsx, got)])[0] == "OK":
                     return "optimizer-internal-error"
         return None
-    if out == "engine_hang" and needs_drain_limit(q) and rec["cfg"].get("partitions", 2) >= 2:
-        return "limit-over-drain-join-hang" if "limit-over-drain-join-hang" in known_ids else None
     return None
 
 
